@@ -233,6 +233,8 @@ pub struct Outcome {
     pub max_outbuf: usize,
     pub gate_outbufs: Vec<usize>,
     pub io_exit_time_ns: Option<u64>,
+    /// a transport fault (EOF / read error / write error) was actually presented to the client
+    pub fault_injected: bool,
 }
 
 struct St {
@@ -915,6 +917,7 @@ impl World {
         o.max_outbuf = st.max_outbuf;
         o.gate_outbufs = st.gate_outbufs.clone();
         o.io_exit_time_ns = st.io_exit_time_ns;
+        o.fault_injected = st.tr.crash_done || st.tr.write_err;
         (st.points.clone(), o)
     }
 
